@@ -129,7 +129,14 @@ pub fn gen_script(rng: &mut Rng) -> NamesScript {
         let (l1, l2) = (rng.usize(4, 10), rng.usize(4, 10));
         let (ns, topic) = valid_name(rng, l1, l2);
         let a = format!("/{ns}/{topic}");
-        let b = match rng.below(3) {
+        let b = match rng.below(5) {
+            // same topic component, namespace differing in one character
+            3 | 4 => {
+                let mut n: Vec<char> = ns.chars().collect();
+                let i = rng.usize(0, n.len() - 1);
+                n[i] = if n[i] == 'z' { 'y' } else { 'z' };
+                format!("/{}/{topic}", n.into_iter().collect::<String>())
+            }
             // move one character from the topic to the namespace
             0 => {
                 let (h, t) = topic.split_at(1);
